@@ -889,7 +889,9 @@ theorem contAppend_ok {g g' : Graph} {c : Cont} {key : Key} (hres : contAppend g
             · rename_i hkk
               simpa using hkk
           · right
-            exact ⟨by assumption, _, by assumption, by simpa using hacc⟩
+            rename_i b _ _
+            have hacc' : inSourceTree g b id = true ∧ inSourceTreeObj g b k = true := by simpa using hacc
+            exact ⟨by assumption, b, by assumption, hacc'.1⟩
           · cases hacc
 
 /-! ### the source tree holds sources -/
